@@ -43,7 +43,14 @@ HANDLER = ["none", "finally", "swallow", "reraise", "raise_new", "raise_new_from
            "raise_new_from_exc", "raise_runtime", "raise_runtime_from_none", "raise_runtime_from_exc",
            "raise_same_object", "raise_base", "finally_raise_new", "finally_raise_runtime", "finally_return",
            # a second yield whose value is None (a bare ``yield``) or falsy
-           "yield_again_none", "yield_again_false"]
+           "yield_again_none", "yield_again_false",
+           # what the generator's handler / clean-up raises may be of any standard type - also one that the exit
+           # protocol's own code could raise (AttributeError, TypeError, KeyError, ...): it is the generator's
+           "raise_std:AttributeError", "raise_std:TypeError", "raise_std:KeyError", "raise_std:LookupError",
+           "raise_std:AssertionError", "raise_std:OSError",
+           "finally_raise_std:AttributeError", "finally_raise_std:TypeError", "finally_raise_std:KeyError"]
+STD_RAISED = {"AttributeError": AttributeError, "TypeError": TypeError, "KeyError": KeyError, "LookupError": LookupError,
+              "AssertionError": AssertionError, "OSError": OSError}
 AFTER = ["stop", "yield_again", "raise", "yield_again_none"]
 class RuntimeSub(RuntimeError):
     pass
@@ -133,12 +140,14 @@ def make(pre, handler, after, log, susp):
                 log.append("resumed")
             finally:
                 log.append("finally")
-        elif handler in ("finally_raise_new", "finally_raise_runtime"):
+        elif handler in ("finally_raise_new", "finally_raise_runtime") or handler.startswith("finally_raise_std:"):
             try:
                 yield VALUE[susp]
                 log.append("resumed")
             finally:
                 log.append("finally")
+                if handler.startswith("finally_raise_std:"):
+                    raise STD_RAISED[handler.split(":")[1]]("cleanup failed")
                 raise (New if handler == "finally_raise_new" else RuntimeError)("cleanup failed")
         elif handler == "finally_return":
             try:
@@ -159,6 +168,8 @@ def make(pre, handler, after, log, susp):
                     pass
                 elif handler == "reraise":
                     raise
+                elif handler.startswith("raise_std:"):
+                    raise STD_RAISED[handler.split(":")[1]]("h")
                 elif handler == "raise_new":
                     raise New("h")
                 elif handler == "raise_new_from_none":
